@@ -83,6 +83,14 @@ func verifC06AddRemote() {
 	for _, p := range a.checklist {
 		p.state = CandidatePairState(verifInt(1, 4))
 		p.nominated = verifBool()
+		// bookkeeping and statistics are arbitrary: superseding a candidate must carry all of it over
+		p.nominateOnBindingSuccess = verifBool()
+		p.renominateOnBindingSuccess = verifBool()
+		p.bindingRequestCount = uint16(verifInt(0, 9))
+		p.requestsSent, p.requestsReceived = verifU64(), verifU64()
+		p.responsesSent, p.responsesReceived = verifU64(), verifU64()
+		p.packetsSent, p.bytesSent = verifU32(), verifU64()
+		p.packetsReceived, p.bytesReceived = verifU32(), verifU64()
 	}
 	reject := verifU8()
 	verifAssume(verifAnd(reject != 1, reject != 2)) // pre-state remotes 20.0.0.1/.2 passed the filter
@@ -150,6 +158,9 @@ func verifC06AddRemote() {
 			np := a.checklist[i]
 			verifAssert(np.id == ps.p.id && np.state == ps.state && np.nominated == ps.nominated && np.nominateOnBindingSuccess == ps.nomOnSucc &&
 				np.bindingRequestCount == ps.reqCount, "pair-keeps-id,state,flags")
+			verifAssert(np.renominateOnBindingSuccess == ps.renomOnSucc, "pair-keeps-its-deferred-renomination-flag")
+			verifAssert(verifAnd(verifAnd(np.requestsSent == ps.reqSent, np.requestsReceived == ps.reqRecv), verifAnd(np.responsesSent == ps.respSent, np.responsesReceived == ps.respRecv)), "pair-keeps-its-check-statistics")
+			verifAssert(verifAnd(verifAnd(np.packetsSent == ps.p.packetsSent, np.bytesSent == ps.p.bytesSent), verifAnd(np.packetsReceived == ps.p.packetsReceived, np.bytesReceived == ps.p.bytesReceived)), "pair-keeps-its-traffic-counters")
 			verifAssert(np.priority() == ps.p.priority(), "pair-keeps-its-priority")
 			verifAssert(np.Local == ps.p.Local, "pair-keeps-its-local")
 			if ps.p.Remote == prflx {
@@ -258,6 +269,23 @@ func verifC06RestartAndFailed() {
 	a.connectionState = ConnectionStateConnected
 	a.pendingBindingRequests = append(a.pendingBindingRequests, bindingRequest{timestamp: verifNow(), transactionID: verifTxID()})
 	idBefore := a.nextPairID
+	// optionally the local candidates are started (receive loops running) and
+	// the first one's socket reports an error when it is closed: the clean-up
+	// must still get rid of every candidate
+	started := verifChoice(2) == 1
+	if started {
+		ready := make(chan struct{})
+		close(ready)
+		for i, l := range w.locals {
+			l.conn = nil
+			l.start(a, w.conns[i], ready)
+		}
+		w.conns[0].closeFails = verifChoice(2) == 1
+		verifRunGoroutines()
+		if w.conns[0].closeFails {
+			verifReach("socket-close-fails")
+		}
+	}
 	if verifChoice(2) == 1 {
 		verifReach("restart")
 		verifAssert(a.Restart("freshufrag", "freshpasswordfreshpasswd") == nil, "restart-ok")
@@ -271,6 +299,11 @@ func verifC06RestartAndFailed() {
 	verifAssert(a.getSelectedPair() == nil, "no-selection-left")
 	verifAssert(len(a.pendingBindingRequests) == 0, "no-outstanding-transactions-left")
 	verifAssert(a.nextPairID >= idBefore, "pair-ids-not-reused")
+	if started {
+		for _, c := range w.conns {
+			verifAssert(c.closed >= 1, "every-started-candidate's-socket-was-closed")
+		}
+	}
 	_ = stun.MethodBinding
 	verifReach("done")
 }
